@@ -1,5 +1,8 @@
 """C10 - a declaration either fails cleanly or yields a self-consistent schema."""
+from niltype import Nil
+
 import common
+import gen
 import declsuite as ds
 from absn import KeyTable, Unmodelled, clist, cschema
 
@@ -73,6 +76,42 @@ class Suite:
                               expected="the schema accepts its own fixed value")
                     ctx.violation(f"returned schema rejects its own fixed value: {src}", rp)
 
+    def extra_oracles(self, node, meth, args, kind, res, argvals):
+        """(a) the returned schema is self-contained: changing a list / dict that was passed in afterwards does not
+        change it; (b) a list declared by concrete elements only (no `...`) admits exactly len(elements) members, so
+        a successful length declaration cannot contradict that (the value built from conforming members must meet it)."""
+        ctx = self.ctx
+        src = node.src + ds.call_src(meth, args)
+        if kind != "ok" or not isinstance(res, ds.Schema):
+            return
+        before = repr(res)
+        for a in argvals:
+            try:
+                if type(a) is list:
+                    a.append(ds.ev("schema.none"))
+                elif type(a) is dict:
+                    a["__added_later__"] = ds.ev("schema.none")
+            except Exception:  # noqa
+                pass
+        after = common.srepr(res)
+        if after != before:
+            ctx.violation(f"the returned schema changes when the caller's argument is changed afterwards: {src}",
+                          {"kind": "input", "chain": src, "observed": after[:300], "expected": before[:300]})
+            return
+        if type(res) is ds.ListSchema and meth in ("len", "call"):
+            es = res.props.get("elements")
+            if es is not Nil and all(e is not ... for e in es) and res.props.get("type") is Nil:
+                try:
+                    cand = [gen.conform(ctx.rng, e) for e in es]
+                    errs = [type(e).__name__ for e in ds.validate(res, cand).get_errors()]
+                except Exception:  # noqa
+                    return
+                lens = [e for e in errs if "Length" in e]
+                if lens and len(lens) == len(errs):
+                    ctx.violation(f"a list declared by {len(es)} concrete elements was given a length it cannot have: {src}",
+                                  {"kind": "input", "chain": src, "observed": f"validate(result, {gen.vsrc(cand)}) -> {errs}",
+                                   "expected": "a value with exactly the declared members conforms (or the declaration is rejected)"})
+
     # -------------------------------------------------- one call: run, oracle, case
     def call(self, node, meth, args):
         kind, res, unchanged, argvals = ds.run_call(node.schema, meth, args)
@@ -87,6 +126,7 @@ class Suite:
                 self.cases[term] = node.src + ds.call_src(meth, args)
         except Unmodelled:
             self.unmodelled += 1
+        self.extra_oracles(node, meth, args, kind, res, argvals)      # last: it changes the argument objects
         return kind, res
 
     def tree(self, kind_name, max_depth, ops=None):
